@@ -12,7 +12,7 @@ import (
 
 func init() {
 	register("C03",
-		"every construct that may panic at run time in module code reachable from Resolve and from the registered builtins (explicit panics, reflect operations documented to panic, method calls on possibly-nil interface values, non-constant slice / index expressions, unchecked type assertions, interface comparisons, integer division, regexp.MustCompile, strings.Repeat) is enumerated and must be covered by a deferred recover-to-error at the evaluation entry point; nothing reachable can end the process or swallow a panic and continue; the entry and the node dispatcher return (nil, error) or (value, nil); the dispatcher has an arm per node type and error defaults (also for unknown prefix operators and literal kinds); evaluation recursion descends to children and every loop is bounded by a length. Reading a missing struct field cannot end in (value, no error); a lock taken in evaluator-reachable code is released by a deferred unlock or held over nothing that may panic.",
+		"every construct that may panic at run time in module code reachable from Resolve and from the registered builtins (explicit panics, reflect operations documented to panic, method calls on possibly-nil interface values, non-constant slice / index expressions, unchecked type assertions, interface comparisons, integer division, regexp.MustCompile, strings.Repeat) is enumerated and must be covered by a deferred recover-to-error at the evaluation entry point; nothing reachable can end the process or swallow a panic and continue; the entry and the node dispatcher return (nil, error) or (value, nil); the dispatcher has an arm per node type and error defaults (also for unknown prefix operators and literal kinds); evaluation recursion descends to children and every loop is bounded by a length. Reading a missing struct field cannot end in (value, no error); a lock taken in evaluator-reachable code is released by a deferred unlock or held over nothing that may panic. A variadic builtin takes all trailing arguments or rejects a longer slice than it reads; a result of `regexp` that does not come from the engine sits behind a guard over the complete set of syntax characters.",
 		"termination and panic-freedom of host functions supplied by the caller, fatal runtime errors that bypass recover (stack or memory exhaustion), nil-pointer dereferences through method values (not enumerated individually; covered by the recover), and the wording of errors.",
 		runC03)
 }
@@ -325,6 +325,9 @@ func runC03(c *Ctx) {
 			c11Arity(c, br, "C03.argument-count-is-error")
 		}
 	}
+	c03VariadicUsed(c)
+	// an invalid pattern is an error: not when a shortcut takes it for plain text (shared with C17)
+	c17RegexpShortcut(c, "C03.regexp-shortcut-guard")
 	// out-of-range string positions are errors only as long as they reach the slice expression unclamped
 	c17PositionsAreErrors(c, "C03.string-positions-are-errors")
 	// comparing arrays or maps is an error only as long as a nil slice / map is not taken for null (null == null is true)
@@ -558,12 +561,12 @@ func c03Recursion(c *Ctx, entry *ssa.Function, d *Dispatcher, rr *ReachResult) {
 					return false, w
 				}
 			case rt.Kind == "call" && rt.Fn != nil && typeName(recvType(rt.Fn)) == "NodeList" && fnBase(rt.Fn) == "Array":
-			// an element of the list's slice (`for _, e := range node.List.Array()`)
-			arr := rt.V.(*ssa.Call)
-			if ok, w := descending(arr.Call.Args[0], f, depth); !ok {
-				return false, w
-			}
-		case rt.Kind == "param" && len(rt.Path) == 0 && depth < 3 && f != d.Fn:
+				// an element of the list's slice (`for _, e := range node.List.Array()`)
+				arr := rt.V.(*ssa.Call)
+				if ok, w := descending(arr.Call.Args[0], f, depth); !ok {
+					return false, w
+				}
+			case rt.Kind == "param" && len(rt.Path) == 0 && depth < 3 && f != d.Fn:
 				// helper: all of its call sites must pass descending values
 				idx := rt.Idx
 				n := 0
